@@ -193,11 +193,11 @@ pub struct Node {
 /// Count of `clear_buf.done` emissions in this process (one execution at a time per process).
 pub static CLEAR_DONE: AtomicU64 = AtomicU64::new(0);
 /// The same count per tokio runtime (engines that run several executions in parallel threads).
-static CLEAR_DONE_RT: std::sync::Mutex<Vec<(tokio::runtime::Id, u64)>> = std::sync::Mutex::new(Vec::new());
+static CLEAR_DONE_RT: std::sync::Mutex<Option<std::collections::HashMap<tokio::runtime::Id, u64>>> = std::sync::Mutex::new(None);
 
 fn clear_done_here() -> u64 {
     let id = tokio::runtime::Handle::current().id();
-    CLEAR_DONE_RT.lock().unwrap().iter().find(|e| e.0 == id).map(|e| e.1).unwrap_or(0)
+    CLEAR_DONE_RT.lock().unwrap().as_ref().and_then(|m| m.get(&id).copied()).unwrap_or(0)
 }
 /// Other emissions, by name, for engines that want them.
 pub static EMITS: std::sync::Mutex<Vec<(String, String)>> = std::sync::Mutex::new(Vec::new());
@@ -215,15 +215,7 @@ pub fn install_emit_handler() {
             CLEAR_DONE.fetch_add(1, Ordering::SeqCst);
             if let Ok(h) = tokio::runtime::Handle::try_current() {
                 let id = h.id();
-                let mut g = CLEAR_DONE_RT.lock().unwrap();
-                if let Some(e) = g.iter_mut().find(|e| e.0 == id) {
-                    e.1 += 1;
-                } else {
-                    if g.len() > 256 {
-                        g.remove(0);
-                    }
-                    g.push((id, 1));
-                }
+                *CLEAR_DONE_RT.lock().unwrap().get_or_insert_with(Default::default).entry(id).or_insert(0) += 1;
             }
         } else {
             *EMIT_COUNTS.lock().unwrap().get_or_insert_with(Default::default).entry((name.to_string(), detail.to_string())).or_insert(0) += 1;
@@ -238,20 +230,13 @@ pub fn install_emit_handler() {
 thread_local! {
     static _UNUSED: () = const { () };
 }
-pub static BASELINES: std::sync::Mutex<Vec<(tokio::runtime::Id, u64)>> = std::sync::Mutex::new(Vec::new());
+/// per runtime; entries of dead runtimes are never looked up again (a few bytes each)
+static BASELINES: std::sync::Mutex<Option<std::collections::HashMap<tokio::runtime::Id, u64>>> = std::sync::Mutex::new(None);
 
 pub fn rebaseline() {
     let id = tokio::runtime::Handle::current().id();
     let n = alive_tasks() as u64;
-    let mut g = BASELINES.lock().unwrap();
-    if let Some(e) = g.iter_mut().find(|e| e.0 == id) {
-        e.1 = n;
-    } else {
-        if g.len() > 256 {
-            g.remove(0);
-        }
-        g.push((id, n));
-    }
+    BASELINES.lock().unwrap().get_or_insert_with(Default::default).insert(id, n);
 }
 
 /// Like `rebaseline`, for points where short-lived tasks may still be finishing or long-lived
@@ -272,20 +257,15 @@ pub async fn rebaseline_settled() {
         }
     }
     let id = tokio::runtime::Handle::current().id();
-    let mut g = BASELINES.lock().unwrap();
-    if let Some(e) = g.iter_mut().find(|e| e.0 == id) {
-        e.1 = last as u64;
-    } else {
-        if g.len() > 256 {
-            g.remove(0);
-        }
-        g.push((id, last as u64));
-    }
+    BASELINES.lock().unwrap().get_or_insert_with(Default::default).insert(id, last as u64);
 }
 
 pub fn baseline() -> usize {
     let id = tokio::runtime::Handle::current().id();
-    BASELINES.lock().unwrap().iter().find(|e| e.0 == id).map(|e| e.1 as usize).unwrap_or(0)
+    match BASELINES.lock().unwrap().as_ref().and_then(|m| m.get(&id).copied()) {
+        Some(n) => n as usize,
+        None => crate::vcore::machinery_error("no task baseline recorded for this runtime"),
+    }
 }
 
 pub fn alive_tasks() -> usize {
